@@ -29,7 +29,8 @@ EXPLANATION = (
     "comparing the value with None, and UpdateContext deep-copies the item it inserts before its first store into the value's context.  (i) Every iteration of the descent loop over the intermediate keys in contains and get_recursively either returns/raises or "
     "rebinds the descent variable to its item under that key: no path leaves the loop early or skips a key, so the string, "
     "list and dictionary notations cannot disagree on how deep a path reaches.  (j) The look-up and conversion functions mutate none of their parameters through any "
-    "alias (an effect summary over assignments, loops and callees).  Does not decide agreement of the three notations on values.")
+    "alias (an effect summary over assignments, loops and callees).  Does not decide agreement of the three notations on values."    " Added after the eighth round of seeded changes and the second round of behaviour-preserving changes: A path of UpdateContext.__call__ that has written the update returns (data, context), a path that changes nothing returns the value itself; a membership test on something the path has turned into a string (substring test) is reported; the guard of the {} store is read as a disjunction whichever way it is spelt."
+)
 RULES = {
     "C08-k": "COPY-SAFE: no method other than __init__ compares an attribute with a module-level object() sentinel by identity",
     "C08-l": "GUARD: every 'take the first key' step over the dictionary notation of a key follows len(<that dictionary>) == 1",
